@@ -150,6 +150,7 @@ func closedChannelReported(c *an.Check, fn *ssa.Function, construct string) {
 }
 
 func c08(c *an.Check) {
+	sendMsgAlwaysFrames(c)
 	// consumers of the framed session: UnmarshalVT merges into the message it is given, so a message object that survives
 	// from one RecvMsg to the next must be fresh per iteration or Reset in between — otherwise frame N is decoded as the
 	// union of frames 1..N
@@ -599,4 +600,40 @@ func packetConnLimitSiblings(c *an.Check) {
 		}
 		return "fewer than 2 NewPacketConn sites found (anchor drift)"
 	}())
+}
+
+
+// sendMsgAlwaysFrames: SendMsg reports success only after it wrote a frame — also for a message that marshals to zero
+// bytes (an empty message is a message: peers use it to say "my set is now empty").
+func sendMsgAlwaysFrames(c *an.Check) {
+	p := c.P
+	sm := p.Func("stream/packet", "Session", "SendMsg")
+	if sm == nil {
+		c.Undecided("MUSTCALL", "packet.Session.SendMsg writes a frame for every message", nil, "unresolved anchor")
+		return
+	}
+	c.Gate(an.GateSpec{Rule: "MUSTCALL", Construct: "packet.Session.SendMsg success-return", Fn: sm, Sink: successReturn,
+		Reqs: []an.Req{{Name: "a frame was written to the stream (Write executed and ok)", Holds: func(s *an.State, at ssa.Instruction) bool {
+			for _, b := range sm.Blocks {
+				for _, ins := range b.Instrs {
+					call, ok := ins.(*ssa.Call)
+					if !ok {
+						continue
+					}
+					name := ""
+					if call.Call.IsInvoke() {
+						name = call.Call.Method.Name()
+					} else if fo := an.CallObj(call.Common()); fo != nil {
+						name = fo.Name()
+					}
+					if name != "Write" {
+						continue
+					}
+					if e := an.ErrResult(call, -1); e != nil && s.IsNil(e) {
+						return true
+					}
+				}
+			}
+			return false
+		}}}})
 }
